@@ -99,7 +99,7 @@ def gen_query(rnd, refs, kind, rx=None):
         a2 = rnd.randint(0, len(r2) - k2)
         p1 = [p - rpos[a] for p in rpos[a:b]]
         p2 = [p - r2[a2] + p1[-1] + rnd.randint(3000, 9000) for p in r2[a2:a2 + k2]]
-        if rx.random() < 0.3:
+        if rx.random() < 0.7:
             # two labels at the same coordinate (unresolved double label - legal CMAP) next to the junction, where a second-pass fragment begins or ends
             j = rx.randint(-3, 3)
             src = p1 if j < 0 else p2
@@ -174,7 +174,8 @@ def gen_set(seed, n_queries=(6, 10), kinds=KINDS, weights=None, n_refs=None, odd
         tail = rnd.randint(1, 2000)
         queries.append((qid, lab[-1] + truth.pop('tail', tail), lab))
         truths[qid] = truth
-    for _ in range(rx.choice((0, 1, 1, 2))):
+    extras = tuple(kinds) == tuple(KINDS)          # sets restricted to some kinds (only exact copies, only degenerate molecules ...) stay what they say
+    for _ in range(rx.choice((0, 1, 1, 2)) if extras else 0):
         # tandem duplication: the molecule carries an inner stretch of its reference window twice (A B B C against A B C), with the label noise of real
         # data: the two passes then align overlapping reference stretches, and the join has to trim
         t = tandem_query(rx, refs)
@@ -184,7 +185,7 @@ def gen_set(seed, n_queries=(6, 10), kinds=KINDS, weights=None, n_refs=None, odd
         qid = max(truths) + 3 if truths else 3
         queries.append((qid, lab[-1] + rx.randint(1, 500), lab))
         truths[qid] = dict(kind='tandem', reference=rid, reverse=None)
-    if rx.random() < 0.15:
+    if extras and rx.random() < 0.15:
         # a short contig whose labels start behind a long unlabelled head, and a molecule that carries all of its labels plus a few more in front of
         # them (reaching into the head): the molecule's labelled span exceeds the contig's, yet it fits on the contig, and that is where it belongs
         head = rx.randint(150000, 400000)
